@@ -12,10 +12,16 @@
     signal fires on an extreme of age 0 (`C06_aroon`).
   * Parabolic SAR (every reachable state): the signal is silent iff the returned trend equals the previously returned one,
     and otherwise points in the direction of the new trend; the trend is always ±1 (`C06_sar_signal`, `C06_sar_inv`).
-  Partial: RSI/MFI zone signals, Stochastic, Keltner, Ichimoku, CMF, CMO, TSI/SMI rules are compositions of the C14
-  detectors with `Action` subtraction (C16); their per-indicator theorems are not written (validated by the run).
+  * RSI and money-flow index (detector pairs remembering one difference — true of every reachable state): signal 1
+    buys when the value falls into the lower zone and sells when it rises into the upper zone, signal 2 buys when it
+    leaves the lower zone upwards and sells when it leaves the upper zone downwards (`C06_rsi`, `C06_mfi`).
+  * Chaikin money flow: crossing of zero; Chande momentum, Keltner, Stochastic: differences of one-sided crossings of
+    their zones / bands, Stochastic's third signal the crossing of its two lines (`C06_cmf`, `C06_cmo`, `C06_keltner`,
+    `C06_stochastic`).
+  Partial: Ichimoku, TSI/SMI, Bollinger (proportional strength) rules are not stated as theorems (validated by the run).
 -/
 import YataProofs.Indicators.More
+import YataProofs.Indicators.Signals
 namespace Yata.C06
 open Yata Yata.Ind
 
@@ -55,6 +61,56 @@ theorem C06_aroon (s : Aroon) (up dn : ℚ) (idx : Nat × Nat) :
     r.1.2.1 = Action.ofI8 (sgn (idx.1 == 0) - sgn (idx.2 == 0)) ∧
     r.1.1 = (s.cross.next (up, dn)).1 := Aroon.sigs_spec s up dn idx
 
+theorem C06_rsi (s : RSI) (hl : Synced s.cross_lower) (hu : Synced s.cross_upper) (value : ℚ) :
+    let dL := s.cross_lower.up.last_delta
+    let dU := s.cross_upper.up.last_delta
+    let lo := value - s.cfg.zone
+    let up := value - (1 - s.cfg.zone)
+    (s.sigs [value]).1 =
+      [ Action.ofI8 (sgn (crossUnderRule dL lo) - sgn (crossAboveRule dU up)),
+        Action.ofI8 (sgn (crossAboveRule dL lo) - sgn (crossUnderRule dU up)) ] ∧
+    Synced (s.sigs [value]).2.cross_lower ∧ Synced (s.sigs [value]).2.cross_upper ∧
+    (s.sigs [value]).2.cross_lower.up.last_delta = lo ∧ (s.sigs [value]).2.cross_upper.up.last_delta = up :=
+  RSI.sigs_spec s hl hu value
+
+theorem C06_mfi (s : MFI) (hl : Synced s.cross_lower) (hu : Synced s.cross_upper) (upper value lower : ℚ) :
+    let dL := s.cross_lower.up.last_delta
+    let dU := s.cross_upper.up.last_delta
+    let lo := value - s.zone
+    let up := value - (1 - s.zone)
+    (s.sigs [upper, value, lower]).1 =
+      [ Action.ofI8 (sgn (crossUnderRule dL lo) - sgn (crossAboveRule dU up)),
+        Action.ofI8 (sgn (crossAboveRule dL lo) - sgn (crossUnderRule dU up)) ] ∧
+    Synced (s.sigs [upper, value, lower]).2.cross_lower ∧ Synced (s.sigs [upper, value, lower]).2.cross_upper :=
+  MFI.sigs_spec s hl hu upper value lower
+
+theorem C06_cmf (s : CMF) (v : ℚ) :
+    (s.sigs [v]).1 =
+      [ Action.ofI8 ((if crossAboveRule s.cross_over.up.last_delta (v - 0) then 1 else 0) -
+                     (if crossUnderRule s.cross_over.down.last_delta (v - 0) then 1 else 0)) ] := CMF.sigs_spec s v
+
+theorem C06_cmo (s : CMO) (v : ℚ) :
+    (s.sigs [v]).1 =
+      [ Action.sub (if crossUnderRule s.cross_under.last_delta (v - -s.cfg.zone) then Action.buyAll else Action.none)
+                   (if crossAboveRule s.cross_above.last_delta (v - s.cfg.zone) then Action.buyAll else Action.none) ] ∧
+    (s.sigs [v]).2.cross_under.last_delta = v - -s.cfg.zone ∧ (s.sigs [v]).2.cross_above.last_delta = v - s.cfg.zone :=
+  CMO.sigs_spec s v
+
+theorem C06_keltner (s : Keltner) (src upper lower : ℚ) :
+    (s.sigs [src, upper, lower]).1 =
+      [ Action.sub (if crossUnderRule s.cross_under.last_delta (src - lower) then Action.buyAll else Action.none)
+                   (if crossAboveRule s.cross_above.last_delta (src - upper) then Action.buyAll else Action.none) ] :=
+  Keltner.sigs_spec s src upper lower
+
+theorem C06_stochastic (s : Stoch) (f1 f2 : ℚ) :
+    (s.sigs [f1, f2]).1 =
+      [ Action.sub (if crossAboveRule s.cross_above1.last_delta (f1 - s.cfg.zone) then Action.buyAll else Action.none)
+                   (if crossUnderRule s.cross_under1.last_delta (f1 - s.upper_zone) then Action.buyAll else Action.none),
+        Action.sub (if crossAboveRule s.cross_above2.last_delta (f2 - s.cfg.zone) then Action.buyAll else Action.none)
+                   (if crossUnderRule s.cross_under2.last_delta (f2 - s.upper_zone) then Action.buyAll else Action.none),
+        Action.ofI8 ((if crossAboveRule s.cross_over.up.last_delta (f1 - f2) then 1 else 0) -
+                     (if crossUnderRule s.cross_over.down.last_delta (f1 - f2) then 1 else 0)) ] := Stoch.sigs_spec s f1 f2
+
 theorem C06_sar_inv (a b : ℚ) (k0 : Candle ℚ) (s : SAR) (h : SAR.init a b k0 = .ok s) (k : Candle ℚ) (hv : k.low ≤ k.high) :
     SAR.Inv s ∧ SAR.Inv (s.next k).2 ∧ (s.next k).2.prev_trend = (SAR.afterFlip s k).trend :=
   ⟨SAR.init_inv a b k0 s h, (SAR.next_inv s k (SAR.init_inv a b k0 s h) hv).1, (SAR.next_inv s k (SAR.init_inv a b k0 s h) hv).2⟩
@@ -82,3 +138,9 @@ end Yata.C06
 #print axioms Yata.C06.C06_aroon
 #print axioms Yata.C06.C06_sar_inv
 #print axioms Yata.C06.C06_sar_signal
+#print axioms Yata.C06.C06_rsi
+#print axioms Yata.C06.C06_mfi
+#print axioms Yata.C06.C06_cmf
+#print axioms Yata.C06.C06_cmo
+#print axioms Yata.C06.C06_keltner
+#print axioms Yata.C06.C06_stochastic
